@@ -390,6 +390,14 @@ Proof.
       intro Hw. rewrite (leaves_wrap _ _ _ Hw). eapply Hch; eauto.
 Qed.
 
+Lemma ser_has_child f l n' : pconn (S f) (Ser l) = Some n' -> 1 <= length (flat_map (ntoks f) l).
+Proof.
+  cbn [pconn]. destruct (flat_children (pnode f) true l) as [items|] eqn:Efc; [|discriminate].
+  destruct (flat_children_inv _ _ _ _ Efc) as (l' & HF & ->). intro Hw.
+  destruct HF as [|y y' l0 l0' Hy _]; [discriminate|].
+  cbn [flat_map]. rewrite app_length. pose proof (ntoks_len f y y' Hy). lia.
+Qed.
+
 End Basic.
 
 (* the two halves together: print with to_string(-1), scan, parse *)
@@ -444,4 +452,50 @@ Proof.
   - exists ts. repeat split; auto.
     pose proof (proj2 (leaves_kept reg pf) c n' Hp) as Hl.
     destruct n' as [ci st subs|[l|l]]; simpl in *; rewrite ?app_nil_r in *; auto.
+Qed.
+
+(* ---- the same for parse (the model of parse_cdc): stripping and the empty-circuit shortcut do not interfere ---------- *)
+Lemma pstrip_id c0 mid c1 :
+  ElemState.is_space c0 = false -> ElemState.is_space c1 = false -> pstrip (c0 :: mid ++ [c1]) = c0 :: mid ++ [c1].
+Proof.
+  intros H0 H1.
+  assert (E : rev (c0 :: mid ++ [c1]) = c1 :: rev mid ++ [c0]).
+  { simpl. rewrite rev_app_distr. reflexivity. }
+  unfold pstrip. cbn [drop_ws]. rewrite H0, E. cbn [drop_ws]. rewrite H1, <- E. apply rev_involutive.
+Qed.
+
+Lemma nonempty3 x y r : is_empty_circuit (91%N :: x :: y :: r) = false.
+Proof.
+  unfold is_empty_circuit. destruct x as [|p]; [reflexivity|].
+  repeat (destruct p as [p|p|]; try reflexivity).
+Qed.
+
+Theorem basic_parse (reg : registry) :
+  syms_valid reg = true -> syms_unique reg = true ->
+  forall pf c n', pconn reg pf c = Some n' -> 2 * pf <= depth_budget ->
+  parse reg (to_string reg None c pf) = Ok (top n').
+Proof.
+  intros Hv Hu pf c n' Hp Hd.
+  assert (Hv' : forall r, In r reg -> valid_symbol (r_sym r) = true).
+  { intros r Hr. unfold syms_valid in Hv. rewrite forallb_forall in Hv. auto. }
+  pose proof (basic_text_tokenizes reg Hv' pf c) as Htok. fold (ctoks reg pf c) in Htok.
+  pose proof (basic_parse_tokens reg (syms_unique_sound reg Hu) pf c n' Hp Hd) as Hpt.
+  destruct (ctoks_shape reg pf c n' Hp) as (t0 & r0 & Ets & _).
+  unfold to_string in *.
+  destruct pf as [|f]; [discriminate|].
+  assert (Hfinish : forall s, pstrip s = s -> is_empty_circuit s = false -> tokenize s = Ok (ctoks reg (S f) c) ->
+                    parse reg s = Ok (top n')).
+  { intros s H1 H2 H3. unfold parse. rewrite H1, H2, H3. cbn [bind]. rewrite Ets in *. exact Hpt. }
+  apply Hfinish; [| |exact Htok]; clear Hfinish.
+  - destruct c as [l|l]; cbn [conn_string]; apply pstrip_id; reflexivity.
+  - destruct c as [l|l]; cbn [conn_string] in *; [|reflexivity].
+    destruct (flat_map (node_string f reg None) l) as [|x X'] eqn:EX.
+    + (* "[]" would scan to two tokens, but the printed connection has at least three *)
+      exfalso. cbn [app] in Htok. unfold ctoks in Htok. cbn [conn_items] in Htok.
+      rewrite !map_app in Htok. cbn [map app] in Htok.
+      assert (Hc : tokenize [91%N; 93%N] = Ok [item_tok IOpenS; item_tok ICloseS]) by (vm_compute; reflexivity).
+      rewrite Hc in Htok. inversion Htok as [Hl]. apply (f_equal (@length _)) in Hl. rewrite app_length in Hl. simpl in Hl.
+      pose proof (ser_has_child reg f l n' Hp) as Hn || pose proof (ser_has_child reg (syms_unique_sound reg Hu) f l n' Hp) as Hn. rewrite <- map_flat_map_items, map_length in Hn.
+      rewrite map_length in Hl. lia.
+    + cbn [app]. destruct X' as [|y r]; cbn [app]; apply nonempty3.
 Qed.
